@@ -244,6 +244,22 @@ def run(ctx, res):
             except ValueError:
                 got = ["err", "ValueError"]
             res.corr("Parameters.from_ical (raw text)", s, got, o[4])
+    # ---- parameter values that are typed property values (rendered with their own to_ical, then quoted as needed)
+    from icalendar.prop import vInt, vBoolean, vCalAddress, vUri, vText
+    typed = [({"X-N": vInt(5)}, "X-N=5", {"X-N": "5"}), ({"RSVP": vBoolean(True)}, "RSVP=TRUE", {"RSVP": "TRUE"}),
+             ({"SENT-BY": vCalAddress("mailto:a@x")}, 'SENT-BY="mailto:a@x"', {"SENT-BY": "mailto:a@x"}),
+             ({"ALTREP": vUri("http://x/y;z")}, 'ALTREP="http://x/y;z"', {"ALTREP": "http://x/y;z"}),
+             ({"CN": vText("a, b")}, 'CN="a, b"', {"CN": "a, b"}), ({"X-N": vInt(-7), "X-M": [vText("p"), "q r"]}, 'X-M=p,"q r";X-N=-7', {"X-M": ["p", "q r"], "X-N": "-7"})]
+    for given, text, back in typed:
+        res.evaluations += 1
+        try:
+            got = Parameters(given).to_ical().decode()
+            rb = dict(Parameters.from_ical(got))
+        except Exception as e:  # noqa: BLE001
+            got, rb = "raised " + type(e).__name__, None
+        if got != text or rb != back:
+            res.fail("C08: a parameter whose value is a typed property value is not rendered by that value's to_ical, or is not "
+                     "read back", repr(given), observed=[got, rb], expected=[text, back])
     res.sample({"params": cases[12][1], "text": rows[12]["text"], "read back": rows[12]["alone"]})
     res.sample({"params": cases[-1][1], "text": rows[-1]["text"], "line": rows[-1].get("line_text"), "parts": rows[-1]["line"]})
 
